@@ -117,6 +117,7 @@ def gen_doc(rng):
         if head or di > 0 and rng.random() < 0.9 or rng.random() < 0.4: head += '---' + rng.choice([' ', '\n', ' # c\n'])
         anchors = []
         body = node(rng, rng.choice([0, 1, 2, 3, 4]), 0, False, anchors)
+        if head.endswith(('--- ', '---\n', ' # c\n')) and rng.random() < 0.07: body = rng.choice(['', '# nothing here', '&e', '!!str'])     # an explicit document without content (what follows decides where it ends)
         if head.endswith(' ') and body.startswith('\n'): body = body[1:]
         tail = rng.choice(['\n', '\n', '', '\n...\n', '\n... # end\n'])
         docs.append(head + body + tail)
